@@ -387,6 +387,11 @@ func (m *ldbManager) Pop() error {
 		return err
 	}
 
+	// the cached undo overlays of historical views were computed against the commit that has just been rolled back
+	m.changes.Lock()
+	m.l1Cache.Purge()
+	m.l2Cache.Purge()
+	m.changes.Unlock()
 	return nil
 }
 func (m *ldbManager) Stop() error {
